@@ -265,6 +265,36 @@ def same_name_scenario(ctx, home):
     shutil.rmtree(root, ignore_errors=True)
 
 
+def enum_base_alias_scenario(ctx, home):
+    """an enum / flags type whose base is a named alias that nothing else uses: changing the alias' target changes how every value of the enum is
+    written, so it must change the schema"""
+    def mk(t, flags):
+        return Pkg("Inv", [Al("Code", P(t)), En("Level", [("low", 1), ("high", 2), ("top", 64)], t, flags, True, None, "Code"),
+                           Rec("Item", [("level", N("Level")), ("n", P("int32"))]),
+                           Proto("Levels", [("one", N("Level")), ("items", S(N("Item")))])])
+    root = os.path.join(ctx.workdir, "cases", "enumbasealias")
+    for flags in (False, True):
+        base = mk("uint8", flags)
+        s0, p0 = schemas_of(os.path.join(root, "base"), base, files_for(base), home)
+        ctx.ev()
+        if s0 is None:
+            ctx.violation("generate-failed", "enum with an aliased base type rejected: %s" % cli.clean(p0.stderr)[:300], {"case_dir": root})
+            return
+        for t in ("uint64", "int16", "int8"):
+            variant = mk(t, flags)
+            s1, p1 = schemas_of(os.path.join(root, "v_" + t), variant, files_for(variant), home)
+            ctx.ev()
+            ctx.case(("enum-base-alias", flags, t))
+            ctx.count("enum-base-alias")
+            vals = [64, [[2, -3], [64, 7]]]
+            enc = [Codec(m).encode_stream(m.find("Levels"), "{}", vals) for m in (base, variant)]
+            if s1 is not None and enc[0] != enc[1] and s1["Levels"]["cpp"] == s0["Levels"]["cpp"]:
+                ctx.violation("encoding-changed-schema-same:enum-base-alias", "%s whose base type is the alias Code: retargeting Code from uint8 to %s changes the encoding of its values but not the schema text" % ("flags" if flags else "enum", t),
+                              {"case_dir": root})
+                return
+    shutil.rmtree(root, ignore_errors=True)
+
+
 def text_scenarios(ctx, home):
     """scenarios written as YAML text (constructs the model emitter does not spell): comments on array dimensions / enum values / union
     cases below a documented field or step, and a protocol whose schema is larger than 16 KiB"""
@@ -493,6 +523,7 @@ def run(ctx):
     for s in [x for x in pmap(one, bases, workers=8) if x][:6]:
         ctx.sample(s)
     same_name_scenario(ctx, home)
+    enum_base_alias_scenario(ctx, home)
     text_scenarios(ctx, home)
 
 
